@@ -28,7 +28,7 @@ RULE = ("Hypothesis-generated classes of 1-5 parameters drawn from Integer, Numb
         "level, optionally with bounds / objects / length overridden on the instance's own Parameter objects (state valid under the override only), GUI-only hints (softbounds, step), dict-declared and later-extended object lists; oracle = (1) Draft7Validator.check_schema on the generated schema + a whitelist of Draft-7 keywords and type "
         "names, (2) the serialized valid state validates, (3) for Number/Integer each numeric probe (bounds, float neighbours, "
         "bound+-1) is accepted by the schema exactly when the spec predicate accepts it. Non-trivial = the configuration has a "
-        "bound, an exclusive side, a length, an item type, an object list or allow_None=True; distinct = case hash.")
+        "bound, an exclusive side, a length, an item type, an object list or allow_None=True; distinct = case hash. Round 5: a non-finite float as the state of an unbounded Number; the item type of a List re-declared on the instance.")
 ASSUMPTIONS = [
     "independent validator: jsonschema (wheelhouse) Draft7Validator, `format` keywords not asserted",
     "Integer/Number states hold ints/floats (a bool is a valid Integer for param but not a JSON-schema integer: not generated)",
